@@ -1,4 +1,5 @@
-"""C11 OSCORE protection: structural clauses decided on the syntax tree of oscore.py, and (C11.i) of the users of protect / unprotect."""
+"""C11 OSCORE protection: structural clauses decided on the syntax tree of oscore.py, and (C11.i) of the users of protect / unprotect;
+C11.j executes the option codec on concrete representatives of the admissible range, C11.k decides the key derivation."""
 
 import ast
 
@@ -44,7 +45,16 @@ R = Rules(
         "kit.FlowRunner: local helpers -- nested defs, lambdas, functools.partial, methods through self -- are executed with Python's binding rules, a default "
         "argument holding the value of the definition time): on every path of every user of protect / unprotect (the OSCORE transport, the site wrapper) a "
         "response or notification is unprotected with the identifiers returned by the very protect call whose outer message was sent to obtain it, and a "
-        "response is protected with the identifiers obtained by unprotecting the request of the pipe it is added to.  Not decided: cryptographic "
+        "response is protected with the identifiers obtained by unprotecting the request of the pipe it is added to.  C11.j: _compress and _uncompress are "
+        "*executed* on concrete representatives of every admissible combination of option fields (kit.ConcreteOptionWriter / ConcreteOptionReader: partial IV of "
+        "1..5 bytes, kid of 0..7 bytes, kid context of 0..255 bytes, group flag): the writer must return, the reader must accept what the writer emitted (and the "
+        "RFC 8613 encoding) and decode it to the same fields -- no raising path may be taken for admissible input, however its limit is spelled; on the paths of "
+        "unprotect that reach the decryption the comparisons over the length / numeric value of the message's partial IV must leave every admissible length and "
+        "sequence number (up to 2^40-2) admitted, for requests and for responses.  C11.k: every value the key derivation (_kdf, _kdf_for_keystreams, _kdf_lowlevel) "
+        "returns is the HKDF output of that activation over hash = self.hashfun, the salt and secret given and info = [id, self.id_context, algorithm, type, L] with L "
+        "the derived length, or is read from a keyed store whose key names every input of the computation (for a store shared between contexts also what is read "
+        "from self, transitively through methods called on self; a read inside try/except KeyError is a hit-or-miss decision of the path); derive_keys stores "
+        "sender key / recipient key / common IV derived for (sender ID, Key), (recipient ID, Key), (b'', IV).  Not decided: cryptographic "
         "strength, value-level equality of the round trip, implicit flows through branch conditions, callees of "
         "unprotect other than _extract_encrypted0 (their escape sets are listed as notes only), the "
         "deterministic-request override of _get_sender_key.  Assumed by the map model: the values of COSE header maps are never None."
@@ -483,16 +493,31 @@ ALG_DECRYPT = "oscore.AES_CCM.decrypt"  # signature of SymmetricEncryptionAlgori
 ALG_ENCRYPT = "oscore.AES_CCM.encrypt"  # ... and encrypt(plaintext, aad, key, iv)
 
 
+class _Consts(dict):
+    """name -> value of the module-level integer constants; `.all` additionally holds the constant tuples / lists / strings (a
+    limit may be looked up in a table: `_LIMITS[0]`)"""
+    all = None
+
+
 def module_int_consts(prog, modshort):
-    env = {}
+    env, everything = _Consts(), {}
     for st in prog.module(modshort).tree.body:
-        if isinstance(st, ast.Assign) and len(st.targets) == 1 and isinstance(st.targets[0], ast.Name):
-            try:
-                v = norm.consteval(st.value, env)
-            except norm.NormError:
+        if isinstance(st, (ast.Assign, ast.AnnAssign)) and (isinstance(st, ast.AnnAssign) or len(st.targets) == 1) and st.value is not None:
+            tgt = st.target if isinstance(st, ast.AnnAssign) else st.targets[0]
+            if not isinstance(tgt, ast.Name):
                 continue
+            try:
+                v = kit.consteval_ext(st.value, everything)
+            except (norm.NormError, TypeError, ValueError):
+                everything.pop(tgt.id, None)
+                env.pop(tgt.id, None)
+                continue
+            everything[tgt.id] = v
             if isinstance(v, int) and not isinstance(v, bool):
-                env[st.targets[0].id] = v
+                env[tgt.id] = v
+            else:
+                env.pop(tgt.id, None)
+    env.all = everything
     return env
 
 
@@ -1015,8 +1040,9 @@ def _unprotect_results(ctx, prog):
     paths = [q for q in M.paths() if q.end == "stop"]
     ctx.floor("feasible paths of unprotect that reach the decryption", len(paths), 8)
     res = {"fi": fi, "node": decs[0], "nonce": {0: [], 1: []}, "kinds": {0: set(), 1: set()}, "aad": [], "aad_fresh": [], "aad_kinds": set(), "cmp": {"COSE_KID": [], "COSE_KID_CONTEXT": []},
-           "len": [], "n": len(paths)}
+           "len": [], "n": len(paths), "piv_ranges": []}
     N = Normalizer()
+    NC = Normalizer(penv={k: Poly.const(v) for k, v in module_int_consts(prog, "oscore").items()})
 
     def is_field(e, k):
         return isinstance(e, ast.Name) and e.id == kit.FIELD_PREFIX + k
@@ -1074,6 +1100,39 @@ def _unprotect_results(ctx, prog):
                         eq = eq or (isinstance(cnd.ops[0], ast.Eq) == out)
             if not eq:
                 res["cmp"][k].append((q, "%s is %s but decrypt is reached without %s == %s having been decided [%s]" % (k, "present" if k in had else "never looked at", k, attr, where)))
+        # ---- what the path demands of the partial IV of the message (C11.j): comparisons over its length / its value as a number only
+        if had.get("COSE_PIV") is True:
+            by_atom = {}
+            for cnd, out, _ in q.conds:
+                if not isinstance(cnd, ast.Compare):
+                    continue
+                try:
+                    nf = NC.cmp(cnd)
+                except Exception:  # not a comparison of integers the normaliser knows: ignored (the range stays an over-approximation)
+                    continue
+                if nf[0] == "lt":
+                    nf = nf if out else NC.negate(nf)
+                elif nf[0] in ("eq", "ne") and (nf[0] == "eq") == out:
+                    nf = ("eq", nf[1])
+                else:
+                    continue  # `!=` decided true excludes one value only: not tracked (the range stays an over-approximation)
+                ats = nf[1].atoms()
+                if len(ats) == 1:
+                    by_atom.setdefault(next(iter(ats)), []).append(nf)
+            rng = {}
+            for at, conj in by_atom.items():
+                kind = "len" if at == "len(%s%s)" % (kit.FIELD_PREFIX, "COSE_PIV") else ("int" if at.startswith("int.from_bytes(%s%s" % (kit.FIELD_PREFIX, "COSE_PIV")) and "big" in at else None)
+                if kind is not None:
+                    iv = norm.interval_of(conj, at)
+                    if iv is not None:
+                        rng[kind] = iv
+            isreq = None
+            for cnd, out, _ in q.conds:
+                if match("%s.code.is_request()" % msg, cnd) is not None:
+                    isreq = out
+                elif match("%s.code.is_response()" % msg, cnd) is not None:
+                    isreq = not out
+            res["piv_ranges"].append((q, rng, isreq))
         # ---- minimum length of what is decrypted
         c0 = dargs[0]
         lencall = ast.Call(func=ast.Name(id="len", ctx=ast.Load()), args=[c0], keywords=[])
@@ -1672,9 +1731,10 @@ def _reader_results(ctx, prog, consts):
         if st["empty"] is True:
             return False
         a = Poly.atom("B[0]&%d" % m)
-        if kit.nf_lt(-a) in st["int_facts"]:
+        # (implied by a decided fact, not only literally decided: after `n > 4` was decided true, `if n:` is no decision any more)
+        if kit.nf_lt(-a) in st["int_facts"] or kit.entails_lt0(st["int_facts"], -a):
             return True
-        if kit.nf_lt(a - Poly.const(1)) in st["int_facts"]:
+        if kit.nf_lt(a - Poly.const(1)) in st["int_facts"] or kit.entails_lt0(st["int_facts"], a - Poly.const(1)):
             return False
         return None
 
@@ -2158,6 +2218,509 @@ def h_fields(ctx):
 
 
 # ---------------------------------------------------------------------------
+# C11.j  the option survives the round trip over the whole admissible range
+
+# what a sender can put into the option (property quantifier: all partial-IV lengths for sequence numbers up to 2^40-1, all ID
+# lengths and ID contexts): the partial IV is the sequence number without leading zero bytes (one zero byte for 0), so 1..5 bytes
+# with a non-zero first byte, or b"\0"
+SAMPLE_PIVS = (None, b"\x00", b"\x01", b"\xff", b"\x01\x00", b"\x80\x00\x00", b"\x01\x02\x03\x04", b"\x01\x00\x00\x00\x00", b"\xff\xff\xff\xff\xfe")
+SAMPLE_KIDS = (None, b"", b"\x00", b"\x01\x02", b"\x07" * 7)
+SAMPLE_CTXS = (None, b"", b"\x2a", b"\x00\x01\x02", b"\xa5" * 255)
+
+
+def _rfc_option(fields):
+    """RFC 8613 section 6.1 encoding of a map {COSE key name: bytes}"""
+    piv, kid, kctx = fields.get(K_PIV, b""), fields.get(K_KID), fields.get(K_CTX)
+    flag = len(piv) | (REF_FLAGS["COMPRESSION_BIT_K"] if kid is not None else 0) | (REF_FLAGS["COMPRESSION_BIT_H"] if kctx is not None else 0) \
+        | (REF_GROUP_BIT[1] if K_GRP in fields else 0)
+    if not flag:
+        return b""
+    return bytes([flag]) + piv + (bytes([len(kctx)]) + kctx if kctx is not None else b"") + (kid or b"")
+
+
+def _show_fields(fields):
+    return "{%s}" % ", ".join("%s: %s" % (k, "<%d bytes: %s%s>" % (len(v), v[:6].hex(), ".." if len(v) > 6 else "")) for k, v in sorted(fields.items()))
+
+
+@R.clause("C11.j", "the OSCORE option survives the round trip for every admissible combination of fields: what _compress emits for a partial IV of 1..5 bytes, "
+                   "any kid, any kid context up to 255 bytes and the group flag is accepted by _uncompress and decodes to the same fields")
+def j_roundtrip(ctx):
+    """Added after an independently written breaking change: a 'hardening' guard in _uncompress refused the reserved partial IV
+    lengths 6 and 7 through a constant that evaluates to 4, so it refused the legal 5-byte partial IVs (sequence numbers from
+    2^32) as well, while the sender keeps producing them.  C11.d decides what the paths of reader and writer that *return* compute;
+    nothing decided that the paths that *raise* are taken for malformed input only.
+
+    Necessary condition (property: "unprotecting a protected message yields the original ... all partial-IV lengths (sequence numbers
+    up to 2^40-1), all sender/recipient ID lengths and ID contexts"): for every map of fields a sender can produce, _compress returns
+    an option and _uncompress, given that option, returns -- with the same fields.  Decided by *executing* both functions on concrete
+    representatives of the whole range (kit.ConcreteOptionWriter / kit.ConcreteOptionReader: the interpretation of C11.d with
+    numbers in place of symbols, so every condition over lengths, flag bits and bytes is decided by its value and exactly one path
+    is run): each partial IV length 1..5 (and none), kid absent / empty / 1..7 bytes, kid context absent / empty / up to 255 bytes, group
+    flag.  The reader is run on what the writer produced (the joint invariant of the two sites: whatever layout they agree on,
+    the reader must take back what the writer hands out) and, independently, on the RFC 8613 section 6.1 encoding of the same
+    fields.  How a limit is spelled (a constant, a derived constant, `in (6, 7)`, a table), where the test sits and which exception it
+    raises is immaterial: a refusal of admissible input is a path that ends in a raise for one of the representatives."""
+    prog = ctx.prog
+    consts = module_int_consts(prog, "oscore")
+    wf = prog.func(CP + "_compress")
+    wp = params(wf, skip_self=False)
+    ctx.need(len(wp) == 3, "_compress signature changed")
+    rf = prog.func(CU + "_uncompress")
+    rp = params(rf, skip_self=False)
+    ctx.need(len(rp) == 2, "_uncompress signature changed")
+    bad_w, bad_r, bad_rt, bad_rfc = [], [], [], []
+    n_run = 0
+
+    def read(option):
+        Rd = kit.ConcreteOptionReader(rf, prog, consts, rp[0], option)
+        paths = Rd.paths()
+        ctx.need(len(paths) == 1 and not paths[0].facts,
+                 "_uncompress branches on a condition the rule cannot evaluate for a concrete option: %s" % "; ".join(_describe(q)[:100] for q in paths[:2]))
+        q = paths[0]
+        if q.end != "return":
+            what = kit.txt(q.value)[:80] if q.value is not None else (q.exc or "an exception")
+            return q, None, "ends in %s: %s" % (q.end, what)
+        Rd.state = q.state
+        v = q.value
+        ctx.need(isinstance(v, ast.Tuple) and len(v.elts) == 4 and isinstance(v.elts[2], ast.Dict) and all(k is not None for k in v.elts[2].keys),
+                 "_uncompress does not return a 4-tuple whose third component is a map the rule can enumerate")
+        got = {}
+        for k, val in zip(v.elts[2].keys, v.elts[2].values):
+            name = _cose_key(prog, rf, k)
+            ctx.need(name is not None, "_uncompress: a key of the unprotected map is not a COSE_* constant: %s" % kit.txt(k))
+            if name == K_GRP:
+                got[name] = b""
+                continue
+            b = Rd.bytes_of(val)
+            ctx.need(b is not None, "_uncompress: the value stored for %s is not a slice of the option: %s" % (name, kit.txt(val)[:80]))
+            got[name] = b
+        return q, got, None
+
+    for piv in SAMPLE_PIVS:
+        for kid in SAMPLE_KIDS:
+            for kctx in SAMPLE_CTXS:
+                # the long representatives are combined with the extremes of the other fields only (the runs are independent per field)
+                if (kctx is not None and len(kctx) > 3 and kid not in (None, b"\x01\x02")) or (kid is not None and len(kid) > 2 and kctx not in (None, b"\x2a")):
+                    continue
+                for grp in (False, True):
+                    if grp and (kid not in (None, b"\x01\x02") or kctx not in (None, b"\x2a")):
+                        continue
+                    fields = {}
+                    if piv is not None:
+                        fields[K_PIV] = piv
+                    if kid is not None:
+                        fields[K_KID] = kid
+                    if kctx is not None:
+                        fields[K_CTX] = kctx
+                    if grp:
+                        fields[K_GRP] = b""
+                    n_run += 1
+                    shown = _show_fields(fields)
+                    # ---- writer
+                    W = kit.ConcreteOptionWriter(wf, prog, consts, wp[1], lambda e: _cose_key(prog, wf, e), fields, empty_params=(wp[0],))
+                    wpaths = W.paths()
+                    ctx.need(len(wpaths) == 1 and not wpaths[0].facts,
+                             "_compress branches on a condition the rule cannot evaluate for a concrete map of fields: %s" % "; ".join(_describe(q)[:100] for q in wpaths[:2]))
+                    wq = wpaths[0]
+                    option = None
+                    if wq.end != "return":
+                        bad_w.append((wq, "fields %s: _compress ends in %s: %s" % (shown, wq.end, kit.txt(wq.value)[:80] if wq.value is not None else wq.exc)))
+                    else:
+                        ctx.need(isinstance(wq.value, ast.Tuple) and len(wq.value.elts) == 2, "_compress does not return a pair")
+                        W.state = wq.state
+                        option = W.concrete_bytes(wq.value.elts[0])
+                        ctx.need(option is not None, "_compress: the option value is not a concatenation of constant parts for a concrete map of fields: %s" % kit.txt(wq.value.elts[0])[:100])
+                    # ---- reader on what the writer produced, and on the RFC encoding
+                    want = {k: (b"" if k == K_GRP else v) for k, v in fields.items()}
+                    for opt, sink, label in ((option, bad_rt, "the option _compress emits"), (_rfc_option(fields), bad_rfc, "the RFC 8613 encoding")):
+                        if opt is None or (sink is bad_rfc and opt == option):
+                            continue
+                        q, got, err = read(opt)
+                        if err is not None:
+                            (bad_r if sink is bad_rt else sink).append((q, "fields %s, %s %s: _uncompress %s" % (shown, label, opt[:12].hex() + (".." if len(opt) > 12 else ""), err)))
+                        elif got != want:
+                            sink.append((q, "fields %s, %s %s: decoded as %s" % (shown, label, opt[:12].hex() + (".." if len(opt) > 12 else ""), _show_fields(got))))
+    ctx.floor("concrete field combinations run through _compress / _uncompress", n_run, 100)
+    # ---- unprotect: the decryption is reachable for every admissible partial IV ------------------------------
+    # On the paths of unprotect that reach the decryption with a partial IV in the message (kit.MapModel, the paths of C11.b / C11.f),
+    # the comparisons decided over len(<partial IV>) and over int.from_bytes(<partial IV>, 'big') alone are an interval each (everything
+    # else -- the replay window, comparisons that involve other quantities -- is ignored, which can only widen what a path is taken
+    # to admit).  Every admissible (length, value) representative must be admitted by some such path, for requests and for responses:
+    # a guard that sends 5-byte partial IVs (or sequence numbers from 2^32) to a raise leaves none.
+    UP = _unprotect_results(ctx, prog)
+    ufi = UP["fi"]
+    reps = ((1, 0), (1, 1), (1, 0xFF), (2, 0x100), (3, 0x10000), (4, 2 ** 32 - 1), (5, 2 ** 32), (5, 2 ** (8 * PIV_BYTES) - 2))
+    ctx.floor("paths of unprotect that reach the decryption with a partial IV of the message", len(UP["piv_ranges"]), 2)
+    lost = []
+    for want_req, label in ((True, "request"), (False, "response")):
+        cands = [(q, rng) for q, rng, isreq in UP["piv_ranges"] if isreq is None or isreq == want_req]
+        for n, val in reps:
+            def admits(rng):
+                return all(lo <= x <= hi for x, (lo, hi) in ((n, rng.get("len", (-norm.INF, norm.INF))), (val, rng.get("int", (-norm.INF, norm.INF)))))
+            if cands and not any(admits(rng) for _, rng in cands):
+                lost.append("a %s with the %d-byte partial IV of sequence number %d reaches the decryption on no path; the paths demand %s" % (
+                    label, n, val, sorted({"%s in [%s, %s]" % (k, lo, hi) for _, rng in cands for k, (lo, hi) in rng.items()})))
+    ctx.ob("unprotect reaches the decryption for every admissible partial IV (1..5 bytes, sequence numbers up to 2^40-2), in requests and in responses", not lost, ufi, UP["node"],
+           detail=lost[0] if lost else None, construct="partial IV lengths / sequence numbers admitted by unprotect")
+    ctx.ob("_compress encodes every admissible combination of fields (partial IV of 1..5 bytes, any kid, kid context up to 255 bytes)", not bad_w, wf,
+           (bad_w[0][0].endnode if bad_w and bad_w[0][0].endnode is not None else wf.node), detail=_first(bad_w), construct="_compress accepts every admissible map of fields")
+    ctx.ob("_uncompress accepts every option _compress emits for an admissible combination of fields (no refusal of a legal partial IV / kid / kid context length)", not bad_r, rf,
+           (bad_r[0][0].endnode if bad_r and bad_r[0][0].endnode is not None else rf.node), detail=_first(bad_r), construct="_uncompress accepts what _compress emits")
+    ctx.ob("_uncompress decodes the option _compress emits to the same fields", not bad_rt, rf,
+           (bad_rt[0][0].endnode if bad_rt and bad_rt[0][0].endnode is not None else rf.node), detail=_first(bad_rt), construct="_uncompress(_compress(fields)) == fields")
+    ctx.ob("_uncompress accepts and decodes the RFC 8613 section 6.1 encoding of every admissible combination of fields", not bad_rfc, rf,
+           (bad_rfc[0][0].endnode if bad_rfc and bad_rfc[0][0].endnode is not None else rf.node), detail=_first(bad_rfc), construct="_uncompress(RFC 8613 encoding of fields) == fields")
+
+
+# ---------------------------------------------------------------------------
+# C11.k  key derivation: every key is computed from this context's own inputs
+
+SCU = "oscore.SecurityContextUtils."
+HKDF_PARAMS = ("algorithm", "length", "salt", "info", "backend")  # cryptography's HKDF(algorithm, length, salt, info, backend=None)
+
+
+def _subst_names(e, mapping):
+    import copy
+
+    class T(ast.NodeTransformer):
+        def visit_Name(self, n):
+            return mapping.get(n.id, n) if isinstance(n.ctx, ast.Load) else n
+
+    return T().visit(copy.deepcopy(e))
+
+
+def _hkdf_view(prog, fi, v, depth=0):
+    """{'hash', 'length', 'salt', 'info', 'ikm'} when the evaluated value is the output of one HKDF run: `HKDF(algorithm=H,
+    length=L, salt=S, info=cbor.dumps(I)).derive(K)` written in place, or a call through self of a method of the class that returns
+    exactly that over its parameters (the view is then expressed over the caller's arguments); else None."""
+    v = _apply_callable(prog, fi, v)
+    if not isinstance(v, ast.Call) or depth > 3:
+        return None
+    f = v.func
+    if isinstance(f, ast.Attribute) and f.attr in ("setdefault", "get", "pop") and len(v.args) == 2 and not v.keywords and kit.state_chain(f.value) is not None:
+        return _hkdf_view(prog, fi, v.args[1], depth)  # C.setdefault(k, <fresh value>): what is computed (and stored) on a miss
+    if isinstance(f, ast.Attribute) and f.attr == "derive" and isinstance(f.value, ast.Call) and len(v.args) == 1 and not v.keywords \
+            and (qn(prog, fi, f.value.func) or "").split(".")[-1] == "HKDF":
+        c = f.value
+        if any(isinstance(a, ast.Starred) for a in c.args) or any(k.arg is None for k in c.keywords) or len(c.args) > len(HKDF_PARAMS):
+            return None
+        b = dict(zip(HKDF_PARAMS, c.args))
+        b.update({k.arg: k.value for k in c.keywords})
+        if not all(k in b for k in ("algorithm", "length", "salt", "info")):
+            return None
+        info = b["info"]
+        if isinstance(info, ast.Call) and qn(prog, fi, info.func) in ("cbor2.dumps", "cbor.dumps") and len(info.args) == 1 and not info.keywords:
+            info = info.args[0]
+        else:
+            return None
+        return {"hash": b["algorithm"], "length": b["length"], "salt": b["salt"], "info": info, "ikm": v.args[0]}
+    selfname = fi.node.args.args[0].arg if fi.cls is not None and fi.node.args.args else None
+    if isinstance(f, ast.Attribute) and isinstance(f.value, ast.Name) and f.value.id == selfname and fi.cls is not None:
+        callee = prog.lookup_method(fi.cls.qn, f.attr)
+        if callee is None or callee.node is fi.node:
+            return None
+        rets = [q for q in kit.StateRunner(callee, prog, fork_values=False).paths() if q.end in ("return", "fall")]
+        if not rets or any(q.end != "return" or q.value is None for q in rets):
+            return None
+        # paths of the callee that answer from a store are the callee's own obligation (it is analysed like its caller); what the
+        # call computes is what its computing paths return, which must be one and the same HKDF run
+        views = []
+        for q in rets:
+            x = _hkdf_view(prog, callee, q.value, depth + 1)
+            if x is not None:
+                views.append(x)
+            elif kit.store_read(q.value) is None:
+                return None
+        if not views:
+            return None
+        inner = views[0]
+        if any(not kit.same_val(x[k], inner[k]) for x in views[1:] for k in inner):
+            return None
+        args, kw = bound_args(prog, v, callee.short)
+        names = params(callee)
+        if args is None or kw or len(args) != len(names):
+            return None
+        cself = callee.node.args.args[0].arg
+        mapping = dict(zip(names, args))
+        mapping[cself] = ast.Name(id=selfname, ctx=ast.Load())
+        return {k: _subst_names(x, mapping) for k, x in inner.items()}
+    return None
+
+
+def _apply_callable(prog, fi, v):
+    """`functools.partial(f, a..)(b..)` is `f(a.., b..)`, `(lambda x..: body)(a..)` is body[x := a]: the call a named callable
+    stands for, so that a derivation wrapped in a partial or a lambda is the same fact as the direct call."""
+    for _ in range(4):
+        if not isinstance(v, ast.Call):
+            return v
+        f = v.func
+        if isinstance(f, ast.Call) and (qn(prog, fi, f.func) or "").split(".")[-1] == "partial" and f.args and not any(isinstance(a, ast.Starred) for a in f.args + v.args) \
+                and not any(k.arg is None for k in f.keywords + v.keywords):
+            kws = {k.arg: k for k in f.keywords}
+            kws.update({k.arg: k for k in v.keywords})
+            v = ast.copy_location(ast.Call(func=f.args[0], args=list(f.args[1:]) + list(v.args), keywords=list(kws.values())), v)
+        elif isinstance(f, ast.Lambda) and not v.keywords and not any(isinstance(a, ast.Starred) for a in v.args) and not f.args.vararg and not f.args.kwarg and not f.args.kwonlyargs \
+                and len(f.args.posonlyargs + f.args.args) == len(v.args):
+            v = _subst_names(f.body, {a.arg: x for a, x in zip(f.args.posonlyargs + f.args.args, v.args)})
+        else:
+            return v
+    return v
+
+
+def _self_reads(prog, fi, depth=0, seen=None):
+    """first-level attributes of self read anywhere in the function and, transitively, in the methods it calls through self"""
+    seen = seen if seen is not None else set()
+    if fi.qn in seen or depth > 3 or fi.cls is None or not fi.node.args.args:
+        return set()
+    seen.add(fi.qn)
+    selfname = fi.node.args.args[0].arg
+    out = set()
+    for st in walk_no_nested(fi.node):
+        if not isinstance(st, ast.stmt) or (isinstance(st, ast.Expr) and isinstance(st.value, ast.Call) and is_log_call(st.value)):
+            continue
+        for n in ast.iter_child_nodes(st):
+            if not isinstance(n, ast.expr) or isinstance(n, (ast.Name, ast.Constant)) or isinstance(getattr(n, "ctx", None), (ast.Store, ast.Del)):
+                continue
+            atoms, calls = kit.input_atoms(n, selfname, ())
+            out |= {a.replace(selfname + ".", "self.", 1) for a in atoms if a != selfname}
+            for m, _ in calls:
+                callee = prog.lookup_method(fi.cls.qn, m)
+                if callee is not None:
+                    out |= _self_reads(prog, callee, depth + 1, seen)
+    return out
+
+
+def _container_scope(ctx, prog, fi, cont):
+    """'shared' (class-level / module-level: one store for all security contexts), 'instance' (one per context), or None when
+    the expression is not a store that outlives the activation (a parameter, a local)."""
+    c = kit.state_chain(cont)
+    if c.startswith("type("):
+        return "shared"  # an attribute of the class
+    parts = c.split(".")
+    a = fi.node.args
+    pnames = [x.arg for x in a.posonlyargs + a.args + a.kwonlyargs]
+    selfname = pnames[0] if fi.cls is not None and pnames else None
+    deco = [(chain(d) or "").split(".")[-1] for d in fi.node.decorator_list]
+    if parts[0] == selfname and len(parts) >= 2:
+        if "classmethod" in deco:
+            return "shared"
+        attr = parts[1]
+        class_level = any(attr in prog.classes[k].attrs for k in set(prog.mro(fi.cls.qn)) | set(prog.subclasses(fi.cls.qn)) if k in prog.classes)
+        assigned = False
+        for g in prog.funcs.values():
+            if g.cls is None or not g.node.args.args:
+                continue
+            s0 = g.node.args.args[0].arg
+            for n in walk_no_nested(g.node):
+                tgts = n.targets if isinstance(n, ast.Assign) else ([n.target] if isinstance(n, (ast.AnnAssign, ast.AugAssign)) else [])
+                for t in tgts:
+                    for tt in (t.elts if isinstance(t, (ast.Tuple, ast.List)) else [t]):
+                        if isinstance(tt, ast.Attribute) and tt.attr == attr and isinstance(tt.value, ast.Name) and tt.value.id == s0:
+                            assigned = True
+        if class_level and not assigned:
+            return "shared"
+        ctx.need(assigned, "cannot tell whether the store %s is per context or shared between contexts" % c)
+        return "instance"
+    if parts[0] in pnames:
+        return None
+    if any(isinstance(n, ast.Name) and n.id == parts[0] and isinstance(n.ctx, ast.Store) for n in walk_no_nested(fi.node)):
+        return None
+    return "shared"  # a module-level name or a class named directly
+
+
+def _memo_verdict(ctx, prog, fi, q, sr, fresh, what):
+    """A value handed out from a store instead of being computed in this activation.  It equals what a fresh computation would
+    yield only if everything the computation reads is determined by the key of the store (and, for a store shared between
+    security contexts, that includes what is read from self): inputs of the fresh computation (data: the names in the value the
+    computing paths return; control: the conditions decided on them; transitively through methods called on self) minus the names in
+    the key must be empty.  Returns True when the value was handled as a store read."""
+    cont, key, node = sr
+    scope = _container_scope(ctx, prog, fi, cont)
+    if scope is None:
+        return False
+    a = fi.node.args
+    pnames = [x.arg for x in a.posonlyargs + a.args + a.kwonlyargs]
+    selfname = pnames[0] if fi.cls is not None and pnames else None
+    plist = [p for p in pnames if p != selfname]
+    cc = kit.state_chain(cont)
+
+    def mentions_store(e):
+        return any((kit.state_chain(x) or "") == cc or (kit.state_chain(x) or "").startswith(cc + ".") for x in ast.walk(e) if isinstance(x, (ast.Attribute, ast.Name)))
+
+    inputs = set()
+    todo = []
+    for fq, fv in fresh:
+        todo.append(fv)
+        todo += [cnd for cnd, _, _ in fq.conds if not mentions_store(cnd)]
+    if not fresh:
+        # no computing path could be enumerated: everything the function reads, flow-insensitively
+        inputs |= set(plist)
+        inputs |= {x.replace("self.", (selfname or "self") + ".", 1) for x in _self_reads(prog, fi) if not ("self." + x.split(".", 1)[1]).startswith(cc.replace(selfname or "self", "self", 1))}
+    for e in todo:
+        atoms, calls = kit.input_atoms(e, selfname, plist)
+        inputs |= atoms
+        for m, _ in calls:
+            callee = prog.lookup_method(fi.cls.qn, m) if fi.cls is not None else None
+            if callee is not None:
+                inputs |= {x.replace("self.", (selfname or "self") + ".", 1) for x in _self_reads(prog, callee)}
+    katoms, _ = kit.input_atoms(key, selfname, plist)
+    missing = set(inputs) - katoms - {selfname}
+    if selfname in katoms or scope == "instance":
+        missing = {m for m in missing if not (selfname and m.startswith(selfname + "."))}
+    missing = {m for m in missing if m != cc and not m.startswith(cc + ".") and not cc.startswith(m + ".")}
+    ctx.ob("%s is computed from this context's own inputs: a value answered from a store %s must be keyed by everything the derivation reads" % (
+           what, "shared between security contexts" if scope == "shared" else "of the context"), not missing, fi, q.endnode if q.endnode is not None else fi.node,
+           detail="answered from %s[%s]; the derivation also reads %s, which the key does not contain (two contexts that differ only there get the same value)" % (
+               kit.txt(cont)[:40], kit.txt(key)[:80], ", ".join(sorted(missing))) if missing else None,
+           construct="%s: value read from %s" % (fi.short, kit.txt(cont)[:60]))
+    return True
+
+
+@R.clause("C11.k", "key derivation (RFC 8613 section 3.2.1): every key / common IV is the HKDF output over this context's own inputs -- salt, secret, "
+                   "info = [id, id_context, alg, type, L] -- computed when asked for, or answered from a store whose key covers every input")
+def k_derivation(ctx):
+    """Added after an independently written breaking change: _kdf memoised its results in a class-level dict keyed by its call
+    arguments only, although the derivation also reads the ID context, the algorithms and the hash function from self; a second
+    security context with the same secret, salt and IDs but another ID context got the first one's keys and common IV, so messages
+    of one context verified under the other ("verification with another context's keys makes unprotection fail" no longer held).
+
+    Necessary condition: the keys of a context are a function of *all* its inputs.  Decided path-wise (kit.StateRunner: a keyed read
+    of a store inside try/except KeyError is a decision -- hit or miss -- like `k in C` / `C.get(k)` are): every value _kdf /
+    _kdf_for_keystreams / _kdf_lowlevel can return is (1) the HKDF output of this activation, with hash = self.hashfun, the salt and
+    secret given, info = [role id given, self.id_context, an algorithm identifier of this context / the key algorithm given, type
+    given, L] and L the requested length -- however the info array is put together and whether the HKDF call is in place or in a
+    method called through self; or (2) read from a keyed store, and then every input of the fresh computation (parameters and
+    attributes of self, also those read in methods called through self; for a per-context store only the parameters) occurs in the
+    key.  derive_keys stores sender key, recipient key and common IV derived for (sender ID, 'Key'), (recipient ID, 'Key'),
+    (b'', 'IV') from the salt and secret given."""
+    prog = ctx.prog
+    n_fresh = 0
+    for short, layout in ((SCU + "_kdf", "kdf"), (SCU + "_kdf_for_keystreams", "keystream"), (SCU + "_kdf_lowlevel", "lowlevel")):
+        fi = method_of(prog, short)
+        pn = params(fi)
+        selfname = fi.node.args.args[0].arg
+        # (fork_values: `x or y`, conditional expressions and named alternatives are decided per path, so the value a path returns is one
+        # concrete display, not an expression with alternatives in it)
+        paths = [q for q in kit.StateRunner(fi, prog, fork_values=True).paths() if q.end in ("return", "fall")]
+        ctx.floor("returning paths of %s" % fi.short, len(paths), 1)
+        fresh, stored = [], []
+        for q in paths:
+            ctx.need(q.end == "return" and q.value is not None, "%s can fall off its end" % fi.short)
+            view = _hkdf_view(prog, fi, q.value)
+            sr = kit.store_read(q.value)
+            if view is not None:
+                # (`C.setdefault(k, <fresh>)` is both: the value computed on a miss, and a read of the store on a hit)
+                fresh.append((q, sr[2].args[1] if sr is not None else q.value, view))
+            ctx.need(view is not None or sr is not None, "%s returns a value that is neither an HKDF output of this call nor read from a keyed store: %s" % (fi.short, kit.txt(q.value)[:100]))
+            if sr is not None:
+                stored.append((q, sr))
+        for q, sr in stored:
+            ok = _memo_verdict(ctx, prog, fi, q, sr, [(fq, fv) for fq, fv, _ in fresh], "a derived key / IV")
+            ctx.need(ok, "%s returns a value that is neither an HKDF output of this call nor read from a store: %s" % (fi.short, kit.txt(q.value)[:100]))
+        n_fresh += len(fresh)
+        for q, v, view in fresh:
+            node = q.endnode
+            where = _describe(q)
+            ctx.ob("the KDF runs with the context's hash function", chain(view["hash"]) == "%s.hashfun" % selfname, fi, node, detail="algorithm=%s" % kit.txt(view["hash"])[:60],
+                   construct="%s: HKDF(algorithm=self.hashfun)" % fi.short)
+            if layout == "lowlevel":
+                ctx.need(len(pn) == 4, "_kdf_lowlevel signature changed")
+                ok = all(isinstance(view[k], ast.Name) and view[k].id == p for k, p in (("salt", pn[0]), ("ikm", pn[1]), ("info", pn[2]), ("length", pn[3])))
+                ctx.ob("HKDF is run over the salt, secret, info and length given", ok, fi, node,
+                       detail="salt=%s, ikm=%s, info=%s, length=%s" % tuple(kit.txt(view[k])[:30] for k in ("salt", "ikm", "info", "length")), construct="%s: HKDF(salt, info, length).derive(ikm)" % fi.short)
+                continue
+            if layout == "kdf":
+                ctx.need(len(pn) >= 4, "_kdf signature changed")
+                p_salt, p_ikm, p_id, p_type = pn[0], pn[1], pn[2], pn[3]
+                n_info, i_type = 5, 3
+            else:
+                ctx.need(len(pn) == 5, "_kdf_for_keystreams signature changed")
+                p_id, p_salt, p_ikm, p_type = pn[0], pn[1], pn[2], pn[4]
+                n_info, i_type = 4, 2
+            ok = isinstance(view["salt"], ast.Name) and view["salt"].id == p_salt and isinstance(view["ikm"], ast.Name) and view["ikm"].id == p_ikm
+            ctx.ob("the key is derived from the salt and the secret given", ok, fi, node, detail="salt=%s, ikm=%s" % (kit.txt(view["salt"])[:40], kit.txt(view["ikm"])[:40]),
+                   construct="%s: HKDF(salt=salt).derive(ikm)" % fi.short)
+            info = view["info"]
+            ctx.need(isinstance(info, (ast.List, ast.Tuple)) and not any(isinstance(x, ast.Starred) for x in info.elts),
+                     "%s: the info array is not a display the rule can enumerate: %s" % (fi.short, kit.txt(info)[:80]))
+            el = info.elts
+            shape = len(el) == n_info
+            ok_id = shape and isinstance(el[0], ast.Name) and el[0].id == p_id
+            ok_ctx = shape and chain(el[1]) == "%s.id_context" % selfname
+            ok_type = shape and isinstance(el[i_type], ast.Name) and el[i_type].id == p_type
+            ok_len = shape and kit.same_val(el[-1], view["length"])
+            shown = "info = %s, length = %s [%s]" % (kit.txt(info)[:160], kit.txt(view["length"])[:40], where)
+            ctx.ob("info[0] is the role ID the key is derived for", bool(ok_id), fi, node, detail=shown, construct="%s: info[0] = id" % fi.short)
+            ctx.ob("info[1] is this context's ID context (contexts that differ in it get different keys)", bool(ok_ctx), fi, node, detail=shown, construct="%s: info[1] = self.id_context" % fi.short)
+            ctx.ob("info carries the output type given", bool(ok_type), fi, node, detail=shown, construct="%s: info[type] = out_type" % fi.short)
+            ctx.ob("the last element of info is the length that is derived", bool(ok_len), fi, node, detail=shown, construct="%s: info[-1] = L = HKDF length" % fi.short)
+            if layout == "kdf":
+                # decided as a dependency, not as a shape: whatever expression yields the identifier (`x.value`, getattr, a named
+                # alternative), it is computed from the algorithms of this context / the key algorithm given and from nothing else
+                allowed = {"%s.alg_aead" % selfname, "%s.alg_group_enc" % selfname} | ({pn[4]} if len(pn) > 4 else set())
+                deps = kit.input_atoms(el[2], selfname, pn)[0] if shape else set()
+                ctx.ob("info[2] is computed from an algorithm of this context (or the key algorithm given) and nothing else", bool(deps) and deps <= allowed, fi, node,
+                       detail="depends on %s; %s" % (sorted(deps), shown), construct="%s: info[2] = algorithm identifier" % fi.short)
+    ctx.floor("paths of the key derivation functions that run the HKDF", n_fresh, 5)
+
+    # ---- derive_keys -------------------------------------------------------------------------------------
+    fi = method_of(prog, SCU + "derive_keys")
+    pn = params(fi)
+    ctx.need(len(pn) == 2, "derive_keys signature changed")
+    selfname = fi.node.args.args[0].arg
+    kd = method_of(prog, SCU + "_kdf")
+    want = {"sender_key": ("%s.sender_id" % selfname, "Key"), "recipient_key": ("%s.recipient_id" % selfname, "Key"), "common_iv": (b"", "IV")}
+    paths = [q for q in kit.StateRunner(fi, prog, fork_values=True).paths() if q.end in ("return", "fall")]
+    ctx.floor("normal paths through derive_keys", len(paths), 1)
+    for q in paths:
+        for attr, (role, typ) in sorted(want.items()):
+            # (a store is `self.a = v`, a component of a tuple assignment, or setattr(self, 'a', v) -- e.g. in a loop over a literal table)
+            st = []
+            opaque = []
+            for ev in q.events:
+                if ev[0] == "store" and chain(ev[1]) == "%s.%s" % (selfname, attr):
+                    st.append((ev[2], ev[3]))
+                elif ev[0] == "call" and isinstance(ev[1], ast.Call) and not is_log_call(ev[1]):
+                    c = ev[1]
+                    if chain(c.func) == "setattr" and len(c.args) == 3 and not c.keywords and isinstance(c.args[0], ast.Name) and c.args[0].id == selfname:
+                        if isinstance(c.args[1], ast.Constant):
+                            if c.args[1].value == attr:
+                                st.append((c.args[2], ev[2]))
+                        else:
+                            opaque.append(c)
+                    elif any(isinstance(x, ast.Name) and x.id == selfname for a in list(c.args) + [k.value for k in c.keywords] for x in [a]) \
+                            or (isinstance(c.func, ast.Attribute) and isinstance(c.func.value, ast.Name) and c.func.value.id == selfname):
+                        opaque.append(c)  # self handed to / a method called on self that was not expanded: it may store the attribute
+            construct = "derive_keys: self.%s = self._kdf(master_salt, master_secret, %s, %r)" % (attr, role if isinstance(role, str) else repr(role), typ)
+            if not st:
+                ctx.need(not opaque, "derive_keys: %s may be stored by a call the rule cannot follow: %s" % (attr, kit.txt(opaque[0])[:80] if opaque else ""))
+                ctx.ob("derive_keys populates %s on every path" % attr, False, fi, fi.node, detail="not stored on the path [%s]" % _describe(q), construct=construct)
+                continue
+            v, node = st[-1]
+            v = _apply_callable(prog, fi, v)
+            if not (_is_self_call(v, kd.node.name) if selfname == "self" else (isinstance(v, ast.Call) and chain(v.func) == "%s.%s" % (selfname, kd.node.name))):
+                sr = kit.store_read(v)
+                handled = sr is not None and _memo_verdict(ctx, prog, fi, q, sr, [], "self.%s" % attr)
+                ctx.need(handled, "derive_keys stores a %s that is neither a self._kdf(...) result nor read from a store: %s" % (attr, kit.txt(v)[:80]))
+                continue
+            args, kw = bound_args(prog, v, kd.short)
+            ctx.need(args is not None and not kw and len(args) >= 4, "cannot bind the arguments of the _kdf call in derive_keys: %s" % kit.txt(v)[:80])
+            try:
+                tv = norm.consteval(args[3])
+            except norm.NormError:
+                tv = None
+            if isinstance(role, str):
+                ok_role = chain(args[2]) == role
+            else:
+                ok_role = isinstance(args[2], ast.Constant) and args[2].value == role
+            ok = isinstance(args[0], ast.Name) and args[0].id == pn[0] and isinstance(args[1], ast.Name) and args[1].id == pn[1] and ok_role and tv == typ
+            if typ == "Key":
+                ok = ok and len(args) >= 5 and chain(args[4]) == "%s.alg_aead" % selfname
+            ctx.ob("%s is derived from the master salt and secret for %s and type %r (RFC 8613 section 3.2.1)" % (attr, "the empty ID" if not isinstance(role, str) else role, typ), ok, fi, node,
+                   detail="stored: %s" % kit.txt(v)[:140], construct=construct)
+
+
+# ---------------------------------------------------------------------------
 # C11.i  request/response binding at the users of protect / unprotect
 
 PAIRING = ("protect", "unprotect")
@@ -2556,3 +3119,23 @@ R.seed("C11.i", F_SW, "            protected_response, _ = sc.protect(message, s
        "the response is protected without the identifiers of the request it answers")
 R.seed("C11.i", F_SW, "            unprotected, seqno = sc.unprotect(request)\n", "            unprotected, seqno = sc.unprotect(request)\n            _, seqno = sc.protect(unprotected)\n",
        "the response is protected with identifiers that do not come from unprotecting the request")
+# seeds for C11.j (fifth round: the option survives the round trip over the whole admissible range) and C11.k (key derivation)
+R.seed("C11.j", F_OS, "        pivsz = firstbyte & COMPRESSION_BITS_N\n", "        pivsz = firstbyte & COMPRESSION_BITS_N\n        if pivsz > MAX_SEQNO.bit_length() // 8 - 1:\n            raise DecodeError(\"Partial IV length is reserved\")\n",
+       "the reader refuses the reserved partial IV lengths through a limit that is one too small (legal 5-byte partial IVs are refused)")
+R.seed("C11.j", F_OS, "            if len(tail) < pivsz:\n", "            if len(tail) <= pivsz:\n", "the reader refuses an option that ends with its partial IV (every response that carries its own partial IV)")
+R.seed("C11.j", F_OS, "            if len(tail) - 1 < s:\n", "            if len(tail) - 1 <= s:\n", "the reader refuses an option that ends with its kid context")
+R.seed("C11.j", F_OS, "        if len(piv) > COMPRESSION_BITS_N:\n", "        if len(piv) > COMPRESSION_BITS_N // 2 + 1:\n", "the writer refuses 5-byte partial IVs (sequence numbers from 2^32)")
+R.seed("C11.j", F_OS, "            if s > 255:\n", "            if s > 127:\n", "the writer refuses kid contexts of 128..255 bytes")
+R.seed("C11.j", F_OS, "            partial_iv_short = unprotected.pop(COSE_PIV)\n            partial_iv_generated_by = self.recipient_id\n",
+       "            partial_iv_short = unprotected.pop(COSE_PIV)\n            partial_iv_generated_by = self.recipient_id\n            if int.from_bytes(partial_iv_short, \"big\") >= 2**32:\n                raise ProtectionInvalid(\"Sequence number out of range\")\n",
+       "unprotect refuses sequence numbers from 2^32 before it decrypts")
+R.seed("C11.k", F_OS, "            role_id,\n            self.id_context,\n            the_field_called_alg_aead,", "            role_id,\n            None,\n            the_field_called_alg_aead,",
+       "the ID context no longer enters the key derivation: contexts that differ only in it share their keys")
+R.seed("C11.k", F_OS, "        expanded = hkdf.derive(ikm)\n        return expanded\n", "        expanded = _HKDF_RESULTS.setdefault((salt, ikm, cbor.dumps(info), l), hkdf.derive(ikm))\n        return expanded\n",
+       "HKDF results are shared through a module-level store whose key lacks the hash function")
+R.seed("C11.k", F_OS, '        _alglog.debug("Deriving through KDF:")\n', '        try:\n            return type(self)._kdf_results[salt, ikm, role_id, out_type, key_alg]\n        except KeyError:\n            pass\n        _alglog.debug("Deriving through KDF:")\n',
+       "derived keys are answered from a class-level store keyed by the call arguments only (ID context, algorithms and hash function of the context are not in the key)")
+R.seed("C11.k", F_OS, '        self.recipient_key = self._kdf(\n            master_salt, master_secret, self.recipient_id, "Key", self.alg_aead\n        )\n\n        self.common_iv',
+       '        self.recipient_key = self._kdf(\n            master_salt, master_secret, self.sender_id, "Key", self.alg_aead\n        )\n\n        self.common_iv',
+       "the recipient key is derived for the sender ID: the two ends no longer agree on the keys")
+R.seed("C11.k", F_OS, "            algorithm=self.hashfun,\n            length=l,", "            algorithm=hashes.SHA256(),\n            length=l,", "the KDF ignores the hash function configured for the context")
